@@ -331,6 +331,11 @@ class CropRun:
                 with contextlib.redirect_stdout(io.StringIO()):
                     bad = self.crop.check_bad()
                 extra = [sorted(int(b) for b in bad)]
+            elif kind == "check_bad_keep":
+                import contextlib, io
+                with contextlib.redirect_stdout(io.StringIO()):
+                    bad = self.crop.check_bad(delete_bad=False)
+                extra = [sorted(int(b) for b in bad)]
             elif kind == "reload":
                 self.crop = self.new_crop()
             elif kind == "query":
@@ -372,6 +377,8 @@ def coq_op(op):
         return f"ODelete {op[1]}"
     if k == "check_bad":
         return "OCheckBad"
+    if k == "check_bad_keep":
+        return "OCheckBadKeep"
     if k == "reload":
         return "OReload"
     if k == "query":
